@@ -18,6 +18,8 @@
     pushm <cfgToo 0|1> <hasCfg 0|1> <nblobs> {scripts as for push; the last one is the config's when hasCfg} <nsched> {k}* <nman> {..}
       (Registry.Push of a manifest with a config blob; cfgToo: the tree offers the config to the registry (F30 repaired))
       -> as push
+    csparse <hex of a chunksums response body>   (Model/RegistryChunksums.lean `parseBody`)
+      -> "<digest hex>:<start>:<end> … end=<clean|invalidDigest|missingRange|invalidRange>"
     hpull <thr> <limit|-1> <linkShortcut> <verify> <staged> <nattempts> {attempt}*   (Local.handlePull's loop; the
       scripts are consumed one per Pull; when they run out while the loop still retries, the client goes away)
       -> "res=<ok|err:cls|clientGone> success=<true|false> attempts=<k> link=<manifest id|none>"
@@ -31,6 +33,7 @@
 -/
 import OllamaVerif.Model.Registry
 import OllamaVerif.Model.RegistryCov
+import OllamaVerif.Model.RegistryChunksums
 import Oracle.Util
 namespace Oracle.C09
 open OllamaVerif OllamaVerif.Registry Oracle
@@ -251,6 +254,15 @@ def handle (toks : List String) : Option String :=
       pure (match pushManifest cfgToo m ups sched man with
         | none => "bad-schedule"
         | some (tr, ok) => s!"{joinWith " " (tr.map showPushEv)} res={if ok then "ok" else "err"}")) rest
+  | ["csparse", body] =>
+    runTP (do
+      let b ← hex
+      let r := OllamaVerif.Registry.Chunksums.parseBody b
+      let ending := match r.2 with
+        | .clean => "clean" | .invalidDigest => "invalidDigest" | .missingRange => "missingRange"
+        | .invalidRange => "invalidRange"
+      let es := r.1.map fun (d, s, e) => s!"{hexOrDash d}:{s}:{e}"
+      pure s!"{joinWith " " es} end={ending}") [body]
   | ["canretry", "ok"] => some (if canRetry .ok then "1" else "0")
   | "canretry" :: rest =>
     runTP (do
